@@ -212,6 +212,31 @@ def _build_tables() -> None:
     _p(I, "sum_all({0}, {1})", [I, I], "call.native.star", 0.4)
     _p(I, "({0} if {0} is not None else {1})", ["v:Optional[int]", I], "optional.narrow")
     _p(I, "hash({0})", [I], "hash.int", 0.2)
+    # implicit coercions between representations (values are only used numerically: the exact type of an int is a
+    # documented difference, its value is not)
+    _p(I, "({0} + {1})", [I, B], "coerce.bool->int.add", 0.8)
+    _p(I, "({1} - {0})", [B, I], "coerce.bool->int.sub", 0.4)
+    _p(I, "({0} * {1})", [B, I], "coerce.bool->int.mul", 0.4)
+    _p(I, "add3({0}, {1})", [B, I], "coerce.bool->int.arg", 0.6)
+    _p(I, "add3({0}, c={1})", [I, B], "coerce.bool->int.kwarg", 0.4)
+    _p(I, "(Pt({0}, {1}).x + 0)", [B, I], "coerce.bool->int.attr", 0.3)
+    _p(I, "{0}[{1}]", ["list[int]", B], "coerce.bool->int.index", 0.4)
+    _p(I, "({0} + {1})", [I, "i64"], "coerce.i64->int.add", 0.5)
+    _p(I, "add3({0}, {1})", ["i64", I], "coerce.i64->int.arg", 0.4)
+    _p(F, "scale({0})", [I], "coerce.int->float.arg", 0.8)
+    _p(F, "scale({0}, {1})", [F, I], "coerce.int->float.arg2", 0.5)
+    _p(F, "scale({0})", [B], "coerce.bool->float.arg", 0.3)
+    _p(F, "({0} + {1})", [F, B], "coerce.bool->float.add", 0.3)
+    _p(F, "scale({0}, k={1})", [F, F], "call.native.float", 0.4)
+    _p("i64", "({0} + i64({1} % 1000)) % 100003", ["i64", I], "coerce.int->i64.add", 0.5)
+    _p("i64", "({0} + {1}) % 100003", ["i64", B], "coerce.bool->i64.add", 0.3)
+    _p("i64", "idi64({0} % 4096)", [I], "coerce.int->i64.arg", 0.5)
+    _p("i64", "idi64({0})", [B], "coerce.bool->i64.arg", 0.3)
+    _p("Optional[int]", "optid({0})", [I], "coerce.int->optional.arg", 0.5)
+    _p("Optional[int]", "optid({0})", ["v:Optional[int]"], "call.native.optional", 0.5)
+    _p("tuple[int, str]", "tupid(({0}, {1}))", [I, S], "coerce.tuple.arg", 0.5)
+    _p("tuple[int, str]", "tupid({0})", ["tuple[int, str]"], "call.native.tuple", 0.3)
+    _p("object", "{0}", [I], "coerce.int->object", 0.1)
     for e in ELEMS:
         L = f"list[{e}]"
         _p(I, "len({0})", [L], "len.list")
